@@ -35,6 +35,8 @@ func implC03(line string) string {
 	switch f[0] {
 	case "expr":
 		return parseExprText(astx.UnHex(f[3][1:]))
+	case "asi":
+		return implAsi(f)
 	case "num":
 		return implNum(f)
 	case "str":
@@ -101,4 +103,5 @@ func genC03(c *h.Ctx) {
 		addExpr(c, e, modes[c.Rng.Intn(len(modes))], "random")
 	}
 	genLit(c)
+	genAsi(c)
 }
